@@ -308,9 +308,9 @@ Z3SOM_TACTIC = ("(check-sat-using (then (using-params simplify :som true :som_bl
 
 
 def _run_cbmc_z3som(u, gb, bdir):
-    """One SMT file per property: cbmc --z3 --outfile, then z3-new with the
-    sum-of-monomials rewriter. Returns results list like cbmc's."""
-    # list properties
+    """Polynomial-identity obligations (postconditions and harness assertions) go, one SMT file
+    each, through cbmc --z3 --outfile and z3-new with the sum-of-monomials rewriter; all other
+    obligations of the unit (pointer, bounds, frame ...) are discharged by a normal cbmc run."""
     rc, so, se, dt = sh(["cbmc", gb, "--show-properties", "--json-ui"] + _cbmc_base(u), timeout=300)
     props = []
     try:
@@ -318,21 +318,50 @@ def _run_cbmc_z3som(u, gb, bdir):
             if "properties" in x:
                 props = x["properties"]
     except Exception:
-        raise Undecided("cannot list properties")
+        raise Undecided("cannot list properties: " + (so + se)[-300:])
+    ring = [p for p in props if (".postcondition." in p["name"] or ".assertion." in p["name"] or ".division-by-zero." in p["name"])
+            and not p["name"].startswith("__CPROVER") and CANARY_DESC not in p.get("description", "")]
+    rest = [p for p in props if p not in ring]
     results = []
-    for p in props:
+    if rest:
+        cmd = ["cbmc", gb, "--json-ui"] + _cbmc_base(u)
+        for p in rest:
+            cmd += ["--property", p["name"]]
+        rc, so, se, dt = sh(cmd, timeout=u.timeout, mem_gb=u.mem_gb or 12)
+        u.cmds.append(" ".join(cmd[:6]) + " ... (%d --property selections)" % len(rest))
+        if rc == -9:
+            raise Undecided("timeout on the non-ring obligations")
+        res, status, msgs = _parse_json(so)
+        if res is None:
+            raise Undecided("cbmc gave no result on the non-ring obligations: " + (msgs or "")[-500:])
+        names = {p["name"] for p in rest}
+        results += [r for r in res if r.get("property") in names]
+    for p in ring:
         name = p["name"]
+        # cheap attempt first: obligations that symex/SAT settle at once (unreachable, trivial) never
+        # reach the som route, so a degenerate formula cannot be misread as a refutation
+        cmd0 = ["cbmc", gb, "--json-ui", "--property", name] + _cbmc_base(u)
+        rc0, so0, se0, dt0 = sh(cmd0, timeout=4, mem_gb=u.mem_gb or 12)
+        if rc0 != -9:
+            res0, _, _ = _parse_json(so0)
+            hit = [r for r in (res0 or []) if r.get("property") == name]
+            if hit and hit[0].get("status") in ("SUCCESS", "FAILURE"):
+                hit[0]["backend"] = "sat"
+                results.append(hit[0])
+                continue
         smt = os.path.join(bdir, u.name + "." + re.sub(r"[^A-Za-z0-9_.]", "_", name) + ".smt2")
+        if os.path.exists(smt):
+            os.remove(smt)
         cmd = ["cbmc", gb, "--z3", "--outfile", smt, "--property", name] + _cbmc_base(u)
         rc, so, se, dt = sh(cmd, timeout=u.timeout, mem_gb=u.mem_gb or 12)
         u.cmds.append(" ".join(cmd))
         if rc == -9:
             raise Undecided("timeout generating smt for " + name)
+        rec = {"property": name, "description": p.get("description", ""), "sourceLocation": p.get("sourceLocation")}
         if not os.path.exists(smt):
-            # property simplified away (trivially true) - cbmc reports without a solver
-            if "VERIFICATION SUCCESSFUL" in so or "0 remaining after simplification" in so:
-                results.append({"property": name, "description": p.get("description", ""),
-                                "status": "SUCCESS", "backend": "cbmc-simplifier"})
+            if "VERIFICATION SUCCESSFUL" in so:
+                rec.update(status="SUCCESS", backend="cbmc-simplifier")
+                results.append(rec)
                 continue
             raise Undecided("no smt file for %s: %s" % (name, (so + se)[-800:]))
         txt = open(smt).read()
@@ -340,25 +369,38 @@ def _run_cbmc_z3som(u, gb, bdir):
         txt = re.sub(r"\(get-value [^\n]*\n", "", txt)
         txt = re.sub(r"\(get-model\)", "", txt)
         txt = re.sub(r"\(exit\)", "", txt)
-        txt += Z3SOM_TACTIC + "(get-model)\n"
+        txt += Z3SOM_TACTIC
         open(smt, "w").write(txt)
         cmd2 = ["z3-new", "-T:%d" % int(u.timeout or 120), smt]
         u.cmds.append(" ".join(cmd2))
         rc, so2, se2, dt2 = sh(cmd2, timeout=(u.timeout or 120) + 10, mem_gb=u.mem_gb or 12)
         first = so2.strip().split("\n")[0] if so2.strip() else ""
         if first == "unsat":
-            results.append({"property": name, "description": p.get("description", ""),
-                            "status": "SUCCESS", "backend": "z3-new som"})
+            rec.update(status="SUCCESS", backend="z3-new som")
         elif first == "sat":
-            results.append({"property": name, "description": p.get("description", ""),
-                            "status": "FAILURE", "backend": "z3-new som", "model": so2[:20000]})
+            # ask for the model of the harness inputs
+            open(smt, "a").write("(get-model)\n")
+            rc, so3, se3, dt3 = sh(cmd2, timeout=(u.timeout or 120) + 10, mem_gb=u.mem_gb or 12)
+            rec.update(status="FAILURE", backend="z3-new som", model=so3[:200000])
         else:
             raise Undecided("z3-new on %s: %s" % (name, (so2 + se2)[:300]))
+        results.append(rec)
         try:
             os.remove(smt)
         except OSError:
             pass
     return results
+
+
+def _inputs_from_model(model):
+    """harness inputs in_* from a z3 model printed for cbmc's SMT encoding"""
+    acc = {}
+    for m in re.finditer(r"\(define-fun \|?([^\s|]*?::in_[A-Za-z0-9_]+)(?:![0-9@#]+)*\|? \(\) \(_ BitVec (\d+)\)\s+#([xb])([0-9a-fA-F]+)\)", model):
+        name = m.group(1).split("::")[-1]
+        w = int(m.group(2))
+        v = int(m.group(4), 16 if m.group(3) == "x" else 2)
+        acc.setdefault(name, {"binary": format(v, "0%db" % w), "data": str(v), "type": "bv%d" % w})
+    return acc
 
 
 def run_unit(u, bdir):
@@ -405,7 +447,9 @@ def run_unit(u, bdir):
                     u.inputs = _inputs_from_trace(r["trace"], u.entry)
                     ob["inputs"] = u.inputs
                 if "model" in r:
-                    ob["model"] = r["model"]
+                    ob["model"] = r["model"][:4000]
+                    if not u.inputs:
+                        u.inputs = _inputs_from_model(r["model"])
             elif st != "SUCCESS":
                 raise Undecided("obligation %s has status %s" % (r.get("property"), st))
         if u.canary:
